@@ -97,14 +97,44 @@ theorem csi_reg2bins_is_spec (beg end_ ms d : Nat) (hd : d ≤ 10) (h1 : beg < e
     (h2 : end_ ≤ 2 ^ (ms + 3 * d)) : reg2bins beg end_ ms d = Hts.Spec.Coord.reg2bins beg end_ ms d :=
   reg2bins_spec beg end_ ms d hd h1 h2
 
-/-- the record's bin is the specification's bin of [pos, end) -/
+/-- the record's bin is the specification's bin of [pos, end), an alignment length of 0 wrapped to 1
+(SAM v1 §4.2.1): for every placed record on the indexable range, whatever its End is -/
 theorem bin_spec (u mu : Bool) (pos : Nat) (c : List CigarOp) (e : Nat)
-    (hend : recordEnd u pos c = some (e : Int)) (h1 : pos < e) (h2 : e ≤ 2 ^ 29) :
-    recordBin u mu pos c = some (Hts.Spec.Coord.reg2bin pos e 14 5) := by
+    (hend : recordEnd u pos c = some (e : Int)) (h1 : pos ≤ e) (h2 : e ≤ 2 ^ 29) (h3 : pos < 2 ^ 29) :
+    recordBin u mu pos c = some (Hts.Spec.Coord.reg2bin pos (if e = pos then pos + 1 else e) 14 5) := by
   unfold recordBin
   rw [hend]
   simp only [Option.map_some]
-  rw [binFor_spec pos e h1 h2]
+  by_cases he : e = pos
+  · subst he
+    simp only [if_true]
+    have := binFor_spec e (e + 1) (by omega) (by omega)
+    simpa using this
+  · have hne : ¬ ((e : Int) = (pos : Int)) := by omega
+    simp only [he, hne, if_false]
+    rw [binFor_spec pos e (by omega) h2]
+
+/-- a mapped read over the standard operations: the bin of [pos, pos + max(1, reference length)) -/
+theorem bin_spec_mapped (mu : Bool) (pos : Nat) (c : List CigarOp) (hne : c ≠ []) (h : Standard c)
+    (h2 : (pos : Int) + refLen c ≤ 2 ^ 29) (h3 : pos < 2 ^ 29) :
+    recordBin false mu pos c =
+      some (Hts.Spec.Coord.reg2bin pos (if refLen c = 0 then pos + 1 else pos + (refLen c).toNat) 14 5) := by
+  have hend := end_spec pos c hne h
+  have hnn : 0 ≤ refLen c := by
+    have h0 := maxReach_ge c (pos : Int)
+    rw [maxReach_noB c pos h] at h0; omega
+  have hcast : ((pos : Int) + refLen c) = ((pos + (refLen c).toNat : Nat) : Int) := by omega
+  rw [hcast] at hend
+  have := bin_spec false mu pos c (pos + (refLen c).toNat) hend (by omega) (by omega) h3
+  rw [this]
+  by_cases h0 : refLen c = 0
+  · rw [if_pos h0, if_pos (by omega)]
+  · rw [if_neg h0, if_neg (by omega)]
+
+/-- an unplaced read (no position: 0-based -1), unmapped or without CIGAR, has bin 4680 = reg2bin(-1, 0) -/
+theorem bin_unplaced (u mu : Bool) (c : List CigarOp) (h : u = true ∨ c = []) :
+    recordBin u mu (-1) c = some 4680 := by
+  rcases h with h | h <;> subst h <;> simp [recordBin, recordEnd] <;> decide
 
 /-! ### the bin of an interval is listed for every overlapping interval -/
 
@@ -136,5 +166,8 @@ example : cigarIsValid [⟨5, 1⟩, ⟨4, 2⟩, ⟨0, 8⟩, ⟨5, 3⟩] 10 = som
 example : cigarIsValid [⟨0, 4⟩, ⟨4, 2⟩, ⟨0, 4⟩] 10 = some false := by decide
 example : binFor 16000 16500 = 585 ∧ 585 ∈ overlappingBinsFor 16400 16401 := by decide
 example : reg2bin 0 2 0 2 = 1 ∧ 1 ∈ reg2bins 1 2 0 2 := by decide
+-- an insertion-only read on a tile boundary: End = Pos, bin of [16384, 16385) = 4682 (not reg2bin(16384,16384) = 585)
+example : recordEnd false 16384 [⟨1, 5⟩] = some 16384 ∧ recordBin false false 16384 [⟨1, 5⟩] = some 4682 := by decide
+example : Hts.Spec.Coord.reg2bin 16384 16385 14 5 = 4682 := by decide
 
 end Hts.Props.C16
